@@ -158,7 +158,9 @@ class AbsEval(ConstEval):
                         raise AbsRaise("TypeError", str(ex))
                     except Exception as ex:
                         raise NotConstant(f"compare failed: {ex}")
-                if not r:
+                if not isinstance(r, bool) and len(e.ops) == 1:
+                    return r  # a symbolic truth value (an engine-specific predicate object)
+                if not (self.truth(r) if not isinstance(r, bool) else r):
                     return False
                 left = right
             return True
@@ -325,6 +327,8 @@ class AbsEval(ConstEval):
             args = self.eval_args(e, env, mod)
             if any(is_abs(a) for a in args) and isinstance(args[1], str):
                 return _typed(Res("strptime", args[0], args[1]), "datetime")
+        if name == "auto" and not e.args and not e.keywords and (not isinstance(e.func, ast.Name) or e.func.id not in env or isinstance(env[e.func.id], Opaque)):
+            return Res("enum-auto", mod, e.lineno)  # enum.auto(): a value distinct from every other member's
         if name == "reduce" and 2 <= len(e.args) <= 3:
             f = self.eval(e.args[0], env, mod)
             items = self.eval(e.args[1], env, mod)
